@@ -902,10 +902,12 @@ def gen_history(rng, xdev_ok):
         r = rng.random()
         n = rng.choice([0, 1, 2, 5, 17, 254, 255, 256, 600]) if rng.random() < 0.85 else rng.choice([4095, 4096, 4097, 8192, 65536, 70000])
         if in_sess == "w" and r < 0.6:
-            op = rng.choice(["w", "w", "w", "sb", "ss", "sc", "si", "rlc", "rl", "end"])
-            if op in ("rlc", "rl", "end"):
+            op = rng.choice(["w", "w", "w", "sb", "ss", "sc", "si", "rlc", "rl", "end", "r", "end"])
+            if op in ("rlc", "rl", "end", "r"):
                 # reading through a writer: comes back empty-handed, and end() says so afterwards
-                c.append("rlc %02x" % rng.choice([10, 13, 97]) if op == "rlc" else op)
+                c.append("rlc %02x" % rng.choice([10, 13, 97]) if op == "rlc" else "r %d" % rng.choice([0, 1, 100]) if op == "r" else op)
+                if op == "r":
+                    c.append("end")
                 continue
             if op == "si":
                 c.append("si %d" % rng.choice([0, 1, -1, 2147483647, -2147483648, rng.randrange(-10 ** 6, 10 ** 6)]))
@@ -1095,8 +1097,12 @@ TRUSTED = ["tools/props/c17.py translate(): regex shape checks of readLine/lines
            "chunk, copy block, fopen mode strings, BOM bytes, size mask, UTF-16 byte order into lean/Gen/FileGen.lean",
            "lean/AslModel/Utf.lean fromWide/utf16toUtf8 (C08's model of String(const wchar_t*)), reused by text()"]
 ASSUMPTIONS = ["fopen modes (C11 7.21.5.3): r needs the file, w creates/truncates, a creates and writes at the end, + adds the other direction; b/t ignored (POSIX)",
-               "an output stream delivers all bytes given to fwrite/fputs, in order, at its position, by the time it is closed (files are observed only after the writer is closed)",
-               "fgets(buf, n, f): at most n-1 bytes, stops after the first LF, NULL iff nothing stored at end of file, sets the EOF indicator exactly when it runs out of bytes",
+               "an output stream delivers all bytes given to fwrite/fputs, in order, at its position, when it is flushed or closed (fflush/fclose). THE MODEL HAS NO STDIO BUFFER (it writes through): "
+               "what it says about an object still open for writing holds for the code only because every observation path of such an object (size, content, text, lines, firstBytes, File::copy, "
+               "File::move, open of an open object) calls fflush/fclose first — shape-checked by translate(), compared on real files by K, not provable in the model",
+               "fgets(buf, n, f): at most n-1 bytes, stops after the first LF, NULL when nothing was stored (at the end of the file; or on a stream that cannot be read, e.g. opened for writing: "
+               "then with the error indicator set and EOF not set), sets the EOF indicator exactly when it runs out of bytes",
+               "fread of >= 1 byte and fgets on a write-only stream fail and set ferror (a 0-byte fread touches nothing); fseek does not clear ferror; feof stays false",
                "fread(p, 1, n, f) returns the next min(n, remaining) bytes and sets the EOF indicator iff fewer than n remained; feof reads it; fseek clears it; ftell = offset",
                "stat().st_size is the file length; rename() replaces the destination and fails with EXDEV across devices (/tmp vs /dev/shm); unlink removes the file",
                "String(const char*, n), String::resize/fix keep n bytes (C03); String(const wchar_t*) is AslModel.Utf.fromWide (C08)",
@@ -1126,7 +1132,8 @@ LEVEL_TEXT += (" Persistent objects (lazily opened handle + cached stat informat
                "path's current bytes (obj_after_close), and so do content/text/firstBytes of an object in ANY state — open in any mode at any "
                "position, anything cached — and size() of an open object (obj_reads); they leave the object as it was, so a lazily opening writer still works afterwards "
                "(obj_readers_keep_state, obj_read_then_append); File::copy/move of a written-through object carry everything written "
-               "(obj_copy_move_preserve); a destination that accepts no byte is reported and the source kept (full_device); stat-backed queries interleaved with writes on an open object change neither disk "
+               "(obj_copy_move_preserve — like every statement here about an object still open for writing, under the assumption that its "
+               "observation paths flush first: the model has no stdio buffer); stat-backed queries interleaved with writes on an open object change neither disk "
                "nor handle (obj_history); open for WRITE, any sequence of writes and queries, close: size() is the number of bytes written "
                "and content() exactly those bytes (obj_write_query_close).")
 LEVEL_TEXT += (" End to end: after any history of writers, if the reference store holds c then a fresh object returns c / c.length / "
@@ -1134,10 +1141,17 @@ LEVEL_TEXT += (" End to end: after any history of writers, if the reference stor
                "(write_then_text); successive reads of a freshly opened File are consecutive pieces (read_seq_open); objects opened for "
                "WRITE or APPEND, and the lazily opening writers (TextFile write/put/<</append, File put), with any writes and queries, "
                "then close: old bytes (append) + everything written (obj_write_query_close, obj_lazy_write_query_close). "
-               "content() clauses carry the bound < 2 GiB (content() casts size() to int).")
+               "content() clauses carry the bound < 2 GiB (content() casts size() to int). NOT proved, only transcribed and K-checked "
+               "(definitional lemmas that unfold a model definition): what a read through a stream that cannot be read returns and that end() is "
+               "true afterwards (readLine_delim_total first half, failed_read_ends: repairs 95952ce, 4bfeeba), the outcome of copy/move to a "
+               "destination that accepts no byte (full_device: repair 78aac25), and everything about directories (driver constants xdirlines, "
+               "xdirrlc, xdirend, xdircopy: repairs 9eba4eb, 95952ce, 4bfeeba, bbbf8e1).")
 LEVEL_NOTE = ("Hypotheses (modelled, exercised by K, not verified): stdio and POSIX behave as listed under `assumptions` (fopen modes, fwrite "
-              "delivery by fclose, fgets/fread/feof, stat size, rename/EXDEV/unlink); files are observed after the writer is closed (a still-open "
-              "writer's buffered bytes and its cached size are not an `afterwards` observation); the line theorems assume NUL-free content "
+              "delivery by fflush/fclose, fgets/fread/feof/ferror, stat size, rename/EXDEV/unlink). The model has no stdio buffer: the theorems about "
+              "objects still open for writing (obj_reads open branch, obj_write_query_close `while still open`, obj_copy_move_preserve, "
+              "obj_open_closes) assume that every observation path of an open object flushes first; they would hold verbatim for the code before "
+              "the repairs ae75f36 (flush half), b3be5cd, a48095a, which only K (xputread, xobjcopy, xreopen, hcopy, h-histories) and the "
+              "translate() shape strings see; the line theorems assume NUL-free content "
               "(readLine measures chunks with strlen; the model transcribes that and K covers NUL content, but no theorem speaks about it) and "
               "files are < 2 GiB (text() masks the size). What another object's size() answers while a writer has unflushed data is not "
               "compared (printed `?` by both sides; the writer itself flushes in size()/content()/text()/firstBytes() and is compared; see the "
@@ -1164,5 +1178,11 @@ LEVEL_NOTE = ("Hypotheses (modelled, exercised by K, not verified): stdio and PO
               "unflushed data (a48095a); lines() of an open object started at its position and never returned when it was open for writing "
               "(b935145), and looped forever on a read error (9eba4eb); the whole-file readers left the object open read-only so that a "
               "following append/write/put failed (630b40d); File::copy/move ignored the object's unflushed writes (b3be5cd); Directory::copy "
-              "reported success when the final flush failed and move then deleted the source (78aac25). The model has no I/O errors except "
-              "the one destination `full` (/dev/full) of copy/move; lines() of a directory is a transcribed constant (xdirlines).")
+              "reported success when the final flush failed and move then deleted the source (78aac25). readLine(char) never returned after a failed "
+              "read (95952ce); end() tested feof only (4bfeeba); Directory::copy ignored a read error on the source (bbbf8e1). K-ONLY among these "
+              "(no model counterpart beyond a transcribed definition or a driver constant): 9eba4eb, 95952ce, 4bfeeba, bbbf8e1, 78aac25 — the model has "
+              "no I/O errors: `copyToFull/moveToFull` write the outcome for /dev/full into their definition (full_device only unfolds it), reads through "
+              "a writer set an error flag by definition (failed_read_ends, readLine_delim_total first half only unfold it), FileText.copy has no source-error "
+              "branch, and the four directory operations xdirlines, xdirrlc, xdirend, xdircopy are constants in lean/Driver/C17.lean that nothing in "
+              "AslModel produces. obj_write_query_close covers objects opened WRITE or APPEND (and the lazy writers); objects opened RW or READ and then "
+              "written through are covered by store_refines for the disk, not by an object-level theorem.")
